@@ -8,7 +8,7 @@
      Engine._pause    E1  if _engine_state is not None: (undo P1) raise RuntimeError
                       E2  _engine_state = (None, None, ())
                       E3  protocol.pause_writing()
-                      E4  transport.pause_reading()
+                      E4  if _transport: transport.pause_reading()
                       E5  protocol._msg_handler, handler = None, protocol._msg_handler
                       E6  _disable_sending, read_only = True, _disable_sending
                       E7  _engine_state = (handler, read_only, disc_flag)
@@ -17,7 +17,7 @@
                       -- may raise at any point; NO try/finally around it (TryFinally = FALSE)
      Engine._resume   R1  if _engine_state is None: raise RuntimeError
                       R2  protocol._msg_handler, _disable_sending, disc = _engine_state
-                      R3  transport.resume_reading()
+                      R3  if _transport: transport.resume_reading()
                       R4  if not _disable_sending: protocol.resume_writing()
                       R5  _engine_state = None
      Gateway._resume  R6  config.disable_discovery = disc
